@@ -14,6 +14,11 @@ def cubes(tier):
         # one batch holding both files (a single directory / two loose files): which of the two fails and which is corrupt is
         # symbolic, so the outcome does not depend on the set-iteration order inside the batch
         out += [dict(nfiles=2, listing=l, dst=d, prop="C11", verify=True, corrupt=True, _w=2) for l, d in (([[0, 1]], "local"), ([[]], "base"))]
+    # what the status hook (validate_status: how push/fetch learn about objects missing on both sides) is told, including the
+    # retry where nothing is new any more
+    out += [dict(nfiles=2, listing=l, dst=d, prop="C11", vstatus=True) for l, d in (([], "base"), ([[0, 1]], "local"))]
+    if tier == "thorough":
+        out += [dict(nfiles=3, listing=l, dst=d, prop="C11", vstatus=True, _w=2) for l in ([], [[0, 1], [2]]) for d in ("local", "base", "remote")]
     return out
 
 
